@@ -11,6 +11,7 @@ import Pyiga.Proofs.VForm
 import Pyiga.Proofs.VFormAlg
 import Pyiga.Proofs.VFormKey
 import Pyiga.Proofs.SLP
+import Pyiga.Proofs.VFormPhys
 import Mathlib.Data.Matrix.Mul
 import Mathlib.Data.Matrix.Diagonal
 
@@ -31,6 +32,34 @@ theorem literal_sound {α : Type} (o : Ops α) (ρ : Env α) (e : Expr) :
     (∀ n i, shape e = [n] → i < n → ev o ρ (toLit1 e) i 0 = ev o ρ e i 0) ∧
     (∀ m n i j, shape e = [m, n] → i < m → j < n → ev o ρ (toLit1 e) i j = ev o ρ e i j) :=
   ⟨fun n i hs hi => toLit1_vec o ρ e n i hs hi, fun m n i j hs hi hj => toLit1_mat o ρ e m n i j hs hi hj⟩
+
+/-- **broadcast_sound.**  `OperExpr` with a scalar and a vector / matrix operand (`broadcast_expr`): the
+result's entries are the entrywise operation with the scalar, in either operand order. -/
+theorem broadcast_sound {α : Type} (o : Ops α) (ρ : Env α) (op : Op) (x y : Expr) (hx : shape x = []) :
+    (∀ n i, shape y = [n] → i < n →
+      ev o ρ (operExpr op x y) i 0 = o.bin op (ev o ρ x 0 0) (ev o ρ y i 0)
+      ∧ ev o ρ (operExpr op y x) i 0 = o.bin op (ev o ρ y i 0) (ev o ρ x 0 0)) ∧
+    (∀ m n i j, shape y = [m, n] → i < m → j < n →
+      ev o ρ (operExpr op x y) i j = o.bin op (ev o ρ x 0 0) (ev o ρ y i j)
+      ∧ ev o ρ (operExpr op y x) i j = o.bin op (ev o ρ y i j) (ev o ρ x 0 0)) :=
+  ⟨fun n i hy hi => operExpr_scalar_vec o ρ op x y n i hx hy hi,
+   fun m n i j hy hi hj => operExpr_scalar_mat o ρ op x y m n i j hx hy hi hj⟩
+
+/-- **inner_tr_sound.**  `inner(x,y)` (vectors and matrices) and `tr(A)` denote their defining sums
+(`reduceAddV` = Python's left-associated `reduce(operator.add, …)`). -/
+theorem inner_tr_sound {α : Type} (o : Ops α) (ρ : Env α) (x y : Expr) :
+    (∀ n, shape x = [n] → ev o ρ (innerE x y) 0 0
+        = reduceAddV o ((List.range n).map fun i => o.mul (ev o ρ x i 0) (ev o ρ y i 0))) ∧
+    (∀ m n, shape x = [m, n] → ev o ρ (innerE x y) 0 0
+        = reduceAddV o ((List.range (m * n)).map fun k => o.mul (ev o ρ x (k / n) (k % n)) (ev o ρ y (k / n) (k % n)))) ∧
+    ev o ρ (trE x) 0 0 = reduceAddV o ((List.range (len x)).map fun i => ev o ρ x i i) :=
+  ⟨fun n h => inner_vec_sound o ρ x y n h, fun m n h => inner_mat_sound o ρ x y m n h, tr_sound o ρ x⟩
+
+/-- **slices_sound.**  `e[i,:]`, `e[:,j]`, `e.ravel()` pick the right entries. -/
+theorem slices_sound {α : Type} (o : Ops α) (ρ : Env α) (e : Expr) (i j : Nat) (hi : i < len e) (hj : j < ncols e) :
+    ev o ρ (rowE e i) j 0 = ev o ρ e i j ∧ ev o ρ (colE e j) i 0 = ev o ρ e i j
+      ∧ ev o ρ (ravelE e) (i * ncols e + j) 0 = ev o ρ e i j :=
+  ⟨row_sound o ρ e i j hj, col_sound o ρ e i j hi, ravel_sound o ρ e i j hi hj⟩
 
 /-- **literal_tree_sound.**  The whole pass `vf.transform(_to_literal_vec_mat)` (children first, then
 the node) keeps the shape and every entry of every well-shaped expression (`WSh`: the shape
@@ -207,6 +236,20 @@ theorem chain_rule_second_order {α : Type} [CommRing α] {n : Type} [Fintype n]
       = (Jinvᵀ * Jᵀ) * H * (J * Jinv) := by
         simp only [Matrix.mul_add, Matrix.add_mul, Matrix.mul_assoc, add_sub_cancel_right]
     _ = H := by rw [ht, h, Matrix.one_mul, Matrix.mul_one]
+
+/-- **phys_to_para_partial** (first order, basis functions, every dimension — the transliterated branch
+`inner(JacInv[:,k], grad_para φ)` of `replace_physical_derivs`): if `JacInv` holds a right inverse of the
+Jacobian `J` and the physical first derivatives are *defined* by the chain rule
+`∂_{ξ_i} φ = Σ_m J m i · ∂_{x_m} φ`, the substituted expression denotes `∂_{x_k} φ`. -/
+theorem phys_to_para_partial {α : Type} [Field α] [CharZero α] (fn : String → α → α) (ρ : Env α) (dim : Nat)
+    (b : BFun) (J : Nat → Nat → α)
+    (hinv : ∀ m k, m < dim → k < dim →
+      ∑ i ∈ Finset.range dim, J m i * ρ.var "JacInv" [i, k] (List.replicate dim 0) false = if m = k then 1 else 0)
+    (hchain : ∀ i, i < dim → ρ.bf b (bump (List.replicate dim 0) i 1) false
+      = ∑ m ∈ Finset.range dim, J m i * ρ.bf b (bump (List.replicate dim 0) m 1) true)
+    (k : Nat) (hk : k < dim) :
+    ev (fieldOps fn) ρ (physToPara1 dim b k) 0 0 = ρ.bf b (bump (List.replicate dim 0) k 1) true :=
+  physToPara1_sound fn ρ dim b J hinv hchain k hk
 
 /-- Full statement for the physical-derivative pass (NOT proved as a Lean theorem about a
 transliterated `replace_physical_derivs`; see the doc comment above for how it is tied): for every
